@@ -319,7 +319,8 @@ func c14RunRunner(t *testing.T, in c14Input, verdict func(c14Impl)) (impl c14Imp
 				for k := range keys {
 					keys[k] = ocr2keepersv2.UpkeepKey(c14PayloadID(caller, k))
 				}
-				res, err := r.CheckUpkeep(ctx, false, keys...)
+				mercury := caller < len(in.Mercury) && in.Mercury[caller]
+				res, err := r.CheckUpkeep(ctx, mercury, keys...)
 				ids := make([]string, 0, len(res))
 				for _, x := range res {
 					s, _ := x.(string)
